@@ -59,6 +59,9 @@ type ClientReply struct {
 	Raw   []byte
 	Frame *frame.Frame
 	Err   string // decode error, if any
+	// Exotic: the frame is an ERROR response a backend sent on purpose that the reference codec
+	// cannot decode (outcome name); Frame is nil
+	Exotic string
 }
 
 func (r *ClientReq) String() string {
@@ -78,6 +81,24 @@ func (c *Client) OnData(l *simnet.Link, b []byte) {
 	for _, raw := range splitFrames(&c.inbuf) {
 		rep := &ClientReply{Seq: w.nextSeq(), At: w.Now(), Raw: raw}
 		frm, err := decodeFrame(c.Compression, raw)
+		if err != nil && len(raw) >= 9 && raw[4] == 0x00 && raw[1] == 0 && w.ExoticBodies[string(raw[9:])] != "" {
+			// an ERROR response that a backend sent on purpose and that only the codec library cannot
+			// decode (a newer error code): a legitimate answer, delivered undecoded
+			rep.Exotic = w.ExoticBodies[string(raw[9:])]
+			stream := int16(raw[2])<<8 | int16(raw[3])
+			req := c.Outstanding[stream]
+			if req == nil {
+				w.Violate("unsolicited", "duplicate-or-unsolicited-response", fmt.Sprintf("client received an ERROR frame (%s) on stream %d with no request outstanding on it", rep.Exotic, stream))
+				continue
+			}
+			delete(c.Outstanding, stream)
+			req.Replies = append(req.Replies, rep)
+			w.Logf("%s: <- %s reply ERROR %s (undecoded)", c, req, rep.Exotic)
+			if w.OnReply != nil {
+				w.OnReply(req, rep)
+			}
+			continue
+		}
 		if err != nil {
 			rep.Err = err.Error()
 			c.UndecodableFromProxy = append(c.UndecodableFromProxy, fmt.Sprintf("%v: %x", err, raw[:min(len(raw), 32)]))
